@@ -17,7 +17,13 @@ pub(crate) fn fill_buffer<R: std::io::Read>(
     let mut offset = 0;
     let chunk_size = chunk_size.unwrap_or(buffer.len());
     loop {
-        let read = source.read(&mut buffer[offset..chunk_size])?;
+        let read = match source.read(&mut buffer[offset..chunk_size]) {
+            Ok(read) => read,
+            // retry, like `Read::read_exact` and `Read::read_to_end` do: returning the error here
+            // would drop the bytes that were already read into `buffer`
+            Err(ref e) if e.kind() == std::io::ErrorKind::Interrupted => continue,
+            Err(e) => return Err(e),
+        };
         offset += read;
 
         if read == 0 || offset == chunk_size {
@@ -34,7 +40,12 @@ pub(crate) fn fill_buffer_bytes<R: std::io::BufRead>(
 ) -> std::io::Result<usize> {
     let mut read_total = 0;
     while buffer.remaining() < len {
-        let source_buffer = source.fill_buf()?;
+        let source_buffer = match source.fill_buf() {
+            Ok(source_buffer) => source_buffer,
+            // retry, returning the error would lose track of the bytes already moved to `buffer`
+            Err(ref e) if e.kind() == std::io::ErrorKind::Interrupted => continue,
+            Err(e) => return Err(e),
+        };
         let read = source_buffer.len().min(len - buffer.remaining());
         buffer.put_slice(&source_buffer[..read]);
         read_total += read;
